@@ -43,6 +43,102 @@ Ltac leaf :=
   end;
   eauto using grows_refl, keeps_refl, grows_keeps.
 
+(* ------------------------------------------------------------------ *)
+(* the `extensions` entry of a freshly built inner dict (custom types)   *)
+
+Definition fresh_ref (b : nat) (v : val) : Prop := match v with VA _ => True | VR l => b <= l end.
+
+Lemma ustr_eqb_true : forall a b, ustr_eqb a b = true -> a = b.
+Proof.
+  induction a as [|x a IH]; destruct b as [|y b]; simpl; intros H; try discriminate; auto.
+  apply andb_true_iff in H. destruct H as [H1 H2]. apply N.eqb_eq in H1. subst. f_equal. auto.
+Qed.
+
+Lemma ustr_eqb_rfl : forall a, ustr_eqb a a = true.
+Proof. induction a; simpl; auto. rewrite N.eqb_refl. auto. Qed.
+
+Lemma assoc_assoc_set : forall k k' v m,
+  assoc k (assoc_set k' v m) = if ustr_eqb k k' then Some v else assoc k m.
+Proof.
+  induction m as [|[k1 v1] r IH]; simpl.
+  - destruct (ustr_eqb k k'); auto.
+  - destruct (ustr_eqb k' k1) eqn:E1; simpl.
+    + apply ustr_eqb_true in E1. subst k1. destruct (ustr_eqb k k'); auto.
+    + rewrite IH. destruct (ustr_eqb k k1) eqn:E2; auto.
+      destruct (ustr_eqb k k') eqn:E3; auto.
+      apply ustr_eqb_true in E2. apply ustr_eqb_true in E3. subst. rewrite ustr_eqb_rfl in E1. discriminate.
+Qed.
+
+Lemma set_item_get_dict : forall h l k v h' m, set_item h l k v = Some h' -> get h l = Some (NDict m) ->
+  get h' l = Some (NDict (assoc_set k v m)).
+Proof.
+  unfold set_item. intros h l k v h' m H E. rewrite E in H. inversion H.
+  apply get_upd_same. eapply get_lt; eauto.
+Qed.
+
+Definition EXT : ustring := u "extensions".
+
+(* the dict at s maps "extensions" (if at all) to an atom or to a container allocated at or after b *)
+Definition ext_ok (b : nat) (h : heap) (s : nat) : Prop :=
+  exists m, get h s = Some (NDict m) /\ forall x, assoc EXT m = Some x -> fresh_ref b x.
+
+Lemma ext_ok_grows : forall b h h' s, grows h h' -> ext_ok b h s -> ext_ok b h' s.
+Proof. intros b h h' s G (m & E & F). exists m. split; auto. eapply grows_get; eauto. Qed.
+
+Lemma ext_ok_set : forall b h s k v h',
+  set_item h s k v = Some h' -> ext_ok b h s -> (ustr_eqb EXT k = true -> fresh_ref b v) -> ext_ok b h' s.
+Proof.
+  intros b h s k v h' H (m & E & F) Hv. exists (assoc_set k v m). split; [eapply set_item_get_dict; eauto|].
+  intros x A. rewrite assoc_assoc_set in A. destruct (ustr_eqb EXT k); [inversion A; subst; auto | auto].
+Qed.
+
+Lemma ext_ok_update : forall b kvs h s h',
+  update_items h s kvs = Some h' -> Forall (fun kv => fresh_ref b (snd kv)) kvs -> ext_ok b h s -> ext_ok b h' s.
+Proof.
+  induction kvs as [|[k v] r IH]; simpl; intros h s h' H F O.
+  - destruct (get h s) as [[?|?|? ?|?]|]; inversion H; subst; auto.
+  - destruct (set_item h s k v) as [h1|] eqn:E; [|discriminate]. inversion F; subst.
+    eapply IH; eauto. eapply ext_ok_set; eauto.
+Qed.
+
+Lemma ext_loop_result : forall W rec v21 c ents h h' x, ext_loop W rec v21 c ents h = (h', RVal x) -> x = VR c.
+Proof.
+  induction ents as [|[key sub] rest IH]; simpl; intros h h' x H.
+  - inversion H; auto.
+  - assert (K : forall y h1, match set_item h1 c key y with
+                            | Some h2 => ext_loop W rec v21 c rest h2
+                            | None => (h1, RExc "TypeError")
+                            end = (h', RVal x) -> x = VR c).
+    { intros y h1 H1. destruct (set_item h1 c key y); [eauto | discriminate]. }
+    destruct (class_for_type W key v21 "extensions"); [|eapply K; eauto].
+    destruct (is_dict h sub).
+    + unfold bindv in H. destruct (rec (QConstruct u sub) h) as [h1 r1]. destruct r1; try discriminate. eapply K; eauto.
+    + destruct (is_obj h sub); [eapply K; eauto | discriminate].
+Qed.
+
+(* what ExtensionsProperty.clean returns is a container allocated by that call *)
+Lemma clean_ext_result : forall vt W rec fuel v21 v h h' x, copies vt ->
+  clean_ext vt W rec fuel v21 v h = (h', RVal x) -> fresh_ref (length h) x.
+Proof.
+  unfold clean_ext, bindv. intros vt W rec fuel v21 v h h' x Hvt H.
+  destruct (get_dict v h) as [h0 r0] eqn:Eg. assert (G := get_dict_grows _ _ _ _ Eg).
+  destruct r0; try discriminate.
+  destruct (copy_at (cm_ext vt) fuel v0 h0) as [h1 r1] eqn:Ec.
+  destruct r1; try discriminate.
+  destruct v1 as [a|c]; [discriminate|].
+  destruct (mapping_entries h1 (VR c)); [|discriminate].
+  apply ext_loop_result in H. subst x. simpl.
+  assert (Hc : length h0 <= c) by (eapply copy_at_fresh; [|eauto]; apply Hvt).
+  apply grows_len in G. lia.
+Qed.
+
+Lemma interp_ext_fresh : forall vt W d n v21 v h h' x, copies vt ->
+  interp vt W d n (QClean (KExt v21) v) h = (h', RVal x) -> fresh_ref (length h) x.
+Proof.
+  intros vt W d n v21 v h h' x Hvt H. destruct n; simpl in H; [discriminate|].
+  eapply clean_ext_result; eauto.
+Qed.
+
 Section InterpFacts.
   Variable vt : variant.
   Variable W : world.
@@ -50,6 +146,7 @@ Section InterpFacts.
   Variable fuel : nat.
   Hypothesis Hvt : copies vt.
   Hypothesis Hrec : forall q h h' r, rec q h = (h', r) -> grows h h'.
+  Hypothesis Hrec_ext : forall v21 v h h' x, rec (QClean (KExt v21) v) h = (h', RVal x) -> fresh_ref (length h) x.
 
   Lemma list_loop_keeps : forall mk r items b h h' res,
     b <= r -> list_loop rec mk r items h = (h', res) -> keeps b h h'.
@@ -162,7 +259,7 @@ Section InterpFacts.
     - destruct (is_dict h v); [eapply Hrec; eauto|]. destruct (is_obj h v); leaf.
     - eapply clean_ext_grows; eauto.
     - eapply clean_obs_grows; eauto.
-    - destruct (is_obj h v); [leaf|]. unfold bindv in H.
+    - match type of H with (if ?c then _ else _) = _ => destruct c end; [leaf|]. unfold bindv in H.
       destruct (get_dict v h) as [h0 r0] eqn:Eg. assert (G := get_dict_grows _ _ _ _ Eg).
       destruct r0; try leaf. eapply grows_trans; eauto.
   Qed.
@@ -195,18 +292,172 @@ Section InterpFacts.
       destruct (init_loop a b c d e) as [h2 r2] eqn:Ei end.
     assert (K2 : keeps (length h) h1 h2) by (eapply init_loop_keeps; eauto).
     destruct r2; try (leaf; eapply grows_then_keeps; eauto; fail).
-    match type of H with (let (_, _) := alloc ?hh ?nn in _) = _ => destruct (alloc hh nn) as [h4 o] eqn:Ea2 end.
-    leaf. eapply grows_then_keeps; [exact G1|]. eapply keeps_trans; [exact K2|].
-    eapply keeps_then_grows; [|eapply alloc_grows; eauto].
-    match goal with |- keeps _ _ (if ?c then _ else _) => destruct c end.
-    - match goal with |- keeps _ _ (match set_item ?a ?b ?c ?d with _ => _ end) => destruct (set_item a b c d) as [hd|] eqn:Es end.
-      + eapply keeps_trans; [|eapply wrote_keeps; [|eapply set_item_wrote]; eauto].
-        match goal with |- keeps _ _ (match ?x with _ => _ end) => destruct x as [hu|] eqn:Eu end; [|apply keeps_refl].
-        eapply wrote_keeps; [|eapply update_items_wrote]; eauto.
-      + match goal with |- keeps _ _ (match ?x with _ => _ end) => destruct x as [hu|] eqn:Eu end; [|apply keeps_refl].
-        eapply wrote_keeps; [|eapply update_items_wrote]; eauto.
-    - match goal with |- keeps _ _ (match ?x with _ => _ end) => destruct x as [hu|] eqn:Eu end; [|apply keeps_refl].
-      eapply wrote_keeps; [|eapply update_items_wrote]; eauto.
+    match type of H with context [alloc ?hx (NList [])] => set (h3 := hx) in * end.
+    assert (K3 : keeps (length h) h2 h3).
+    { subst h3.
+      match goal with |- keeps _ _ (if ?c then _ else _) => destruct c end.
+      - match goal with |- keeps _ _ (match set_item ?a ?b ?c ?d with _ => _ end) => destruct (set_item a b c d) as [hd|] eqn:Es end.
+        + eapply keeps_trans; [|eapply wrote_keeps; [|eapply set_item_wrote]; eauto].
+          match goal with |- keeps _ _ (match ?x with _ => _ end) => destruct x as [hu|] eqn:Eu end; [|apply keeps_refl].
+          eapply wrote_keeps; [|eapply update_items_wrote]; eauto.
+        + match goal with |- keeps _ _ (match ?x with _ => _ end) => destruct x as [hu|] eqn:Eu end; [|apply keeps_refl].
+          eapply wrote_keeps; [|eapply update_items_wrote]; eauto.
+      - match goal with |- keeps _ _ (match ?x with _ => _ end) => destruct x as [hu|] eqn:Eu end; [|apply keeps_refl].
+        eapply wrote_keeps; [|eapply update_items_wrote]; eauto. }
+    clearbody h3.
+    assert (K : forall hx fs, keeps (length h) h hx ->
+              (let (h4, o) := alloc hx (NObj c fs) in (h4, RVal (VR o))) = (h', res) -> grows h h').
+    { intros hx fs Kx Hx. destruct (alloc hx (NObj c fs)) as [h4 o] eqn:Ea2. inversion Hx; subst.
+      apply keeps_grows. eapply keeps_then_grows; [exact Kx | eapply alloc_grows; eauto]. }
+    assert (K03 : keeps (length h) h h3).
+    { eapply keeps_trans; [apply grows_keeps; exact G1|]. eapply keeps_trans; eauto. }
+    destruct (assoc (u "_valid_refs") m); [eapply K; eauto|].
+    destruct (mem_ustr c (observables W)); [|eapply K; eauto].
+    destruct (alloc h3 (NList [])) as [hv lv] eqn:Eav.
+    eapply K; [|exact H]. eapply keeps_then_grows; [exact K03 | eapply alloc_grows; eauto].
+  Qed.
+
+  Lemma init_loop_ext : forall s sch v21 props b h h' r,
+    lookup EXT sch = Some (KExt v21) -> b <= length h -> ext_ok b h s ->
+    init_loop rec s sch props h = (h', RVal r) -> ext_ok b h' s.
+  Proof.
+    induction props as [|[name v] rest IH]; simpl; intros b h h' r Hs Hb O H.
+    - inversion H; subst; auto.
+    - destruct (reserved_kw name || none_or_empty_list h v); [eauto|].
+      destruct (set_item h s name v) as [h1|] eqn:Es; [|discriminate].
+      assert (L1 : length h1 = length h) by (apply set_item_wrote in Es; apply Es).
+      destruct O as (m & Em & Fm).
+      assert (E1 := set_item_get_dict _ _ _ _ _ _ Es Em).
+      destruct (lookup name sch) as [k|] eqn:Ek.
+      + unfold bindv in H. destruct (rec (QClean k v) h1) as [h2 r2] eqn:Er.
+        assert (G := Hrec _ _ _ _ Er). destruct r2 as [c| |]; try discriminate.
+        destruct (set_item h2 s name c) as [h3|] eqn:Es2; [|discriminate].
+        assert (E2 : get h2 s = Some (NDict (assoc_set name v m))) by (eapply grows_get; eauto).
+        assert (E3 := set_item_get_dict _ _ _ _ _ _ Es2 E2).
+        eapply (IH b h3); [exact Hs | | | exact H].
+        * apply set_item_wrote in Es2. destruct Es2 as [L3 _]. apply grows_len in G. lia.
+        * exists (assoc_set name c (assoc_set name v m)). split; auto.
+          intros x A. rewrite !assoc_assoc_set in A. destruct (ustr_eqb EXT name) eqn:En; [|auto].
+          inversion A; subst x. apply ustr_eqb_true in En. subst name. rewrite Hs in Ek. inversion Ek; subst k.
+          assert (F := Hrec_ext _ _ _ _ _ Er). destruct c as [a|l]; simpl in *; auto. lia.
+      + eapply (IH b h1); [exact Hs | lia | | exact H].
+        exists (assoc_set name v m). split; auto.
+        intros x A. rewrite assoc_assoc_set in A. destruct (ustr_eqb EXT name) eqn:En; [|auto].
+        apply ustr_eqb_true in En. subst name. rewrite Hs in Ek. discriminate.
+  Qed.
+
+  (* what the base constructor returns: a new object whose `_inner` is a new dict, in which
+     `extensions` -- when the class declares it as an ExtensionsProperty -- is a new container *)
+  Lemma construct_body_spec : forall c sch m h h' ov, construct_body W rec c sch m h = (h', RVal ov) ->
+    exists o s fs, ov = VR o /\ length h <= o /\ length h <= s /\
+                   get h' o = Some (NObj c fs) /\ assoc (u "_inner") fs = Some (VR s) /\
+                   (forall v21, lookup EXT sch = Some (KExt v21) -> ext_ok (length h) h' s).
+  Proof.
+    unfold construct_body. intros c sch m h h' ov H.
+    match type of H with (let (_, _) := alloc ?hh ?nn in _) = _ => destruct (alloc hh nn) as [h1 s] eqn:Ea end.
+    assert (Hs : length h <= s) by (rewrite (alloc_loc _ _ _ _ Ea); lia).
+    assert (G1 := alloc_grows _ _ _ _ Ea).
+    unfold bindv in H.
+    match type of H with (let (_, _) := init_loop ?a ?b ?c ?d ?e in _) = _ =>
+      destruct (init_loop a b c d e) as [h2 r2] eqn:Ei end.
+    assert (K2 : keeps (length h) h1 h2) by (eapply init_loop_keeps; eauto).
+    destruct r2 as [r| |]; try discriminate.
+    match type of H with context [alloc ?hx (NList [])] => set (h3 := hx) in * end.
+    assert (O1 : ext_ok (length h) h1 s).
+    { exists []. split; [eapply alloc_get_new; eauto | intros x A; discriminate]. }
+    assert (L2 : length h <= length h2) by (apply keeps_len in K2; apply grows_len in G1; lia).
+    (* the two writes between init_loop and the allocation of the object *)
+    assert (P3 : length h2 <= length h3 /\ forall v21, lookup EXT sch = Some (KExt v21) -> ext_ok (length h) h3 s).
+    { assert (P2 : forall v21, lookup EXT sch = Some (KExt v21) -> ext_ok (length h) h2 s).
+      { intros v21 Hk. eapply init_loop_ext; [exact Hk | | exact O1 | exact Ei]. apply grows_len in G1. lia. }
+      subst h3.
+      match goal with |- context [update_items ?a ?b ?kvs] => destruct (update_items a b kvs) as [hu|] eqn:Eu end.
+      - assert (Lu : length hu = length h2) by (apply update_items_wrote in Eu; apply Eu).
+        assert (Pu : forall v21, lookup EXT sch = Some (KExt v21) -> ext_ok (length h) hu s).
+        { intros v21 Hk. eapply ext_ok_update; [exact Eu | | eauto].
+          rewrite Forall_forall. intros kv Hin. apply in_map_iff in Hin. destruct Hin as (na & <- & _). simpl. exact I. }
+        match goal with |- context [if ?c then _ else _] => destruct c end; [|split; [lia|auto]].
+        match goal with |- context [set_item ?a ?b ?c ?d] => destruct (set_item a b c d) as [hd|] eqn:Ed end;
+          [|split; [lia|auto]].
+        split; [apply set_item_wrote in Ed; destruct Ed as [Ld _]; lia|].
+        intros v21 Hk. eapply ext_ok_set; [exact Ed | eauto | intros _; exact I].
+      - match goal with |- context [if ?c then _ else _] => destruct c end; [|split; [lia|auto]].
+        match goal with |- context [set_item ?a ?b ?c ?d] => destruct (set_item a b c d) as [hd|] eqn:Ed end;
+          [|split; [lia|auto]].
+        split; [apply set_item_wrote in Ed; destruct Ed as [Ld _]; lia|].
+        intros v21 Hk. eapply ext_ok_set; [exact Ed | eauto | intros _; exact I]. }
+    clearbody h3. destruct P3 as [L3 P3].
+    assert (K : forall hx vrf, grows h3 hx ->
+              (let (h4, o) := alloc hx (NObj c ((u "_inner", VR s) :: vrf)) in (h4, RVal (VR o))) = (h', RVal ov) ->
+              exists o s0 fs, ov = VR o /\ length h <= o /\ length h <= s0 /\
+                   get h' o = Some (NObj c fs) /\ assoc (u "_inner") fs = Some (VR s0) /\
+                   (forall v21, lookup EXT sch = Some (KExt v21) -> ext_ok (length h) h' s0)).
+    { intros hx vrf Gx Hx. destruct (alloc hx (NObj c ((u "_inner", VR s) :: vrf))) as [h4 o] eqn:Ea2.
+      inversion Hx; subst h' ov. exists o, s. eexists. split; [reflexivity|].
+      split; [rewrite (alloc_loc _ _ _ _ Ea2); apply grows_len in Gx; lia|]. split; [exact Hs|].
+      split; [eapply alloc_get_new; eauto|].
+      split; [cbn [assoc]; rewrite ustr_eqb_rfl; reflexivity|].
+      intros v21 Hk. eapply ext_ok_grows; [eapply alloc_grows; eauto|]. eapply ext_ok_grows; [exact Gx | eauto]. }
+    destruct (assoc (u "_valid_refs") m); [eapply K; [apply grows_refl | exact H]|].
+    destruct (mem_ustr c (observables W)); [|eapply K; [apply grows_refl | exact H]].
+    destruct (alloc h3 (NList [])) as [hv lv] eqn:Eav.
+    eapply K; [eapply alloc_grows; eauto | exact H].
+  Qed.
+
+  Lemma ext_step_keeps : forall ext c o s fs b h h' res,
+    get h o = Some (NObj c fs) -> assoc (u "_inner") fs = Some (VR s) ->
+    b <= o -> b <= length h -> ext_ok b h s ->
+    ext_step W rec ext (VR o) h = (h', res) -> keeps b h h'.
+  Proof.
+    unfold ext_step. intros ext c o s fs b h h' res Eo Ei Ho Hb (m & Em & Fm) H.
+    rewrite Eo, Ei, Em in H.
+    assert (K : forall h1 x, keeps b h h1 -> fresh_ref b x ->
+      match x with
+      | VA _ => (h1, RExc "TypeError")
+      | VR x0 =>
+        match class_for_type W ext true "extensions" with
+        | None => (h1, RExc "TypeError")
+        | Some ec =>
+          let (h2, k) := alloc h1 (NDict []) in
+          bindv (rec (QConstruct ec (VR k)) h2) (fun eo h3 =>
+            match set_item h3 x0 ext eo with
+            | Some h4 => (h4, RVal (VR o))
+            | None => (h3, RExc "TypeError")
+            end)
+        end
+      end = (h', res) -> keeps b h h').
+    { intros h1 x K1 Fx H1. destruct x as [a|x0]; [leaf|]. simpl in Fx.
+      destruct (class_for_type W ext true "extensions") as [ec|]; [|leaf].
+      destruct (alloc h1 (NDict [])) as [h2 k] eqn:Ea.
+      assert (K2 : keeps b h h2) by (eapply keeps_then_grows; [exact K1|]; eapply alloc_grows; eauto).
+      unfold bindv in H1. destruct (rec (QConstruct ec (VR k)) h2) as [h3 r3] eqn:Er.
+      assert (K3 : keeps b h h3) by (eapply keeps_then_grows; [exact K2|]; eapply Hrec; eauto).
+      destruct r3; try leaf.
+      destruct (set_item h3 x0 ext v) as [h4|] eqn:Es; [|leaf]. leaf.
+      eapply keeps_trans; [exact K3|]. eapply (wrote_keeps b x0); [exact Fx | eapply set_item_wrote; eauto]. }
+    destruct (assoc (u "extensions") m) as [x|] eqn:Ex.
+    - eapply (K h x); [apply keeps_refl | apply Fm; exact Ex | exact H].
+    - destruct (alloc h (NDict [])) as [ha e] eqn:Ea.
+      match type of H with context [alloc ha ?nn] => destruct (alloc ha nn) as [hb s'] eqn:Eb end.
+      destruct (set_field hb o (u "_inner") (VR s')) as [hc|] eqn:Ef; [|leaf].
+      eapply (K hc (VR e)); [| | exact H].
+      + eapply keeps_trans; [apply grows_keeps; eapply alloc_grows; eauto|].
+        eapply keeps_trans; [apply grows_keeps; eapply alloc_grows; eauto|].
+        eapply (wrote_keeps b o); [exact Ho | eapply set_field_wrote; eauto].
+      + simpl. rewrite (alloc_loc _ _ _ _ Ea). exact Hb.
+  Qed.
+
+  Lemma construct_full_grows : forall c sch m h h' res, construct_full W rec c sch m h = (h', res) -> grows h h'.
+  Proof.
+    unfold construct_full, bindv. intros c sch m h h' res H.
+    destruct (construct_body W rec c sch m h) as [h1 r1] eqn:Eb.
+    assert (G1 := construct_body_grows _ _ _ _ _ _ Eb).
+    destruct r1 as [ov| |]; try leaf.
+    destruct (lookup c (with_ext W)) as [ext|]; [|leaf].
+    destruct (lookup (u "extensions") sch) as [[| | | | | | |v21| |]|] eqn:Ek; try leaf.
+    destruct (construct_body_spec _ _ _ _ _ _ Eb) as (o & s & fs & -> & Ho & Hs & Eo & Ei & Ok).
+    eapply grows_then_keeps; [exact G1|].
+    eapply ext_step_keeps; [exact Eo | exact Ei | exact Ho | apply grows_len in G1; exact G1 | eapply Ok; exact Ek | exact H].
   Qed.
 
   Lemma construct_grows : forall c kw h h' res, construct W rec c kw h = (h', res) -> grows h h'.
@@ -214,17 +465,17 @@ Section InterpFacts.
     unfold construct. intros c kw h h' res H.
     destruct (lookup c (classes W)) as [sch|]; [|leaf].
     destruct (mapping_entries h kw) as [m|]; [|leaf].
-    destruct (lookup c (defn_classes W)) as [table|]; [|eapply construct_body_grows; eauto].
-    destruct (assoc (u "definition_type") m) as [dt|]; [|eapply construct_body_grows; eauto].
-    destruct (assoc (u "definition") m) as [dv|]; [|eapply construct_body_grows; eauto].
+    destruct (lookup c (defn_classes W)) as [table|]; [|eapply construct_full_grows; eauto].
+    destruct (assoc (u "definition_type") m) as [dt|]; [|eapply construct_full_grows; eauto].
+    destruct (assoc (u "definition") m) as [dv|]; [|eapply construct_full_grows; eauto].
     match type of H with (match ?x with _ => _ end) = _ => destruct x as [mc|] end; [|leaf].
-    match type of H with (if ?x then _ else _) = _ => destruct x end; [eapply construct_body_grows; eauto|].
+    match type of H with (if ?x then _ else _) = _ => destruct x end; [eapply construct_full_grows; eauto|].
     unfold bindv in H.
     destruct (get_dict dv h) as [h0 r0] eqn:Eg. assert (G := get_dict_grows _ _ _ _ Eg).
     destruct r0; try leaf.
     destruct (rec (QConstruct mc v) h0) as [h1 r1] eqn:Er. assert (G1 := Hrec _ _ _ _ Er).
     destruct r1; try (leaf; eapply grows_trans; eauto; fail).
-    eapply grows_trans; [exact G|]. eapply grows_trans; [exact G1|]. eapply construct_body_grows; eauto.
+    eapply grows_trans; [exact G|]. eapply grows_trans; [exact G1|]. eapply construct_full_grows; eauto.
   Qed.
 
   Lemma parse_dict_grows : forall v ver ac h h' res, parse_dict W rec v ver ac h = (h', res) -> grows h h'.
@@ -289,5 +540,5 @@ Lemma interp_grows : forall vt W d, copies vt ->
 Proof.
   intros vt W d Hvt. induction n as [|n IH]; intros q h h' res H; simpl in H.
   - inversion H. apply grows_refl.
-  - eapply step_grows; eauto.
+  - eapply step_grows; eauto. intros; eapply interp_ext_fresh; eauto.
 Qed.
